@@ -48,7 +48,8 @@ VBool(b) == [t |-> "bool", s |-> <<>>, l |-> <<>>, b |-> b]
 VNone    == [t |-> "none", s |-> <<>>, l |-> <<>>, b |-> FALSE]
 
 \* ------------------------------------------------------------------ text
-WS == {" ", "\t"}
+CR == "~"                                           \* stands for the carriage return character
+WS == {" ", "\t", CR}                               \* what str.strip() / bytes.strip() remove (CRLF input lines)
 Digits == {"0", "1", "2", "3", "4", "5", "6", "7", "8", "9"}
 DigitVal(ch) == CASE ch = "0" -> 0 [] ch = "1" -> 1 [] ch = "2" -> 2 [] ch = "3" -> 3 [] ch = "4" -> 4
                   [] ch = "5" -> 5 [] ch = "6" -> 6 [] ch = "7" -> 7 [] ch = "8" -> 8 [] ch = "9" -> 9
@@ -223,7 +224,11 @@ Start(qq, sc, st) ==
 Reset(qq, sc, st) ==
   /\ q' = qq /\ objAtt' = qq.maxAtt /\ script' = sc /\ start' = st /\ pos' = st /\ left' = 0 /\ pend' = "none" /\ cur' = VNone
   /\ pc' = "new" /\ out' = NoOut /\ obs' = Obs0
-\* the SAME question object is asked again (on the input sc from line st): whatever the object stores survives
+\* the SAME question object is asked again (on the input sc from line st): whatever the object stores survives;
+\* qq = its configuration now (the caller may have used a setter or edited the choice list in between)
+ReAskAs(qq, sc, st) ==
+  /\ q' = qq /\ objAtt' = qq.maxAtt /\ script' = sc /\ start' = st /\ pos' = st /\ left' = 0 /\ pend' = "none" /\ cur' = VNone
+  /\ pc' = "ask" /\ out' = NoOut /\ obs' = Obs0
 ReAsk(sc, st) ==
   /\ q' = q /\ objAtt' = objAtt /\ script' = sc /\ start' = st /\ pos' = st /\ left' = 0 /\ pend' = "none" /\ cur' = VNone
   /\ pc' = "ask" /\ out' = NoOut /\ obs' = Obs0
